@@ -301,10 +301,10 @@ def check_obs(tier):
            defs={'REPAIR_LEVEL_MAX': 2, 'NFAIL': 1, 'NATT': 3},
            note='raid_data / raid_gen / is_hash_matching / is_parity_matching replaced by recording contracts (goto-instrument --dfcc)')]
         if tier != 'thorough' else
-        [Ob('check.repair_step.f%d.l%d' % (nf, lv), K, 'h_repair_step', route='dfcc', replace=['raid_data', 'raid_gen', 'is_hash_matching', 'is_parity_matching'], unwind=14, small_path=True, object_bits=12, solver=KISSAT,
+        [Ob('check.repair_step.f%d.l%d' % (nf, lv), K, 'h_repair_step', route='dfcc', replace=['raid_data', 'raid_gen', 'is_hash_matching', 'is_parity_matching'], unwind=10, small_path=True, object_bits=12, solver=KISSAT,
            timeout=6000, mem=16, cost=30, functions=cf('repair_step') + ['combination_first / combination_next (raid/combo.h)'], replay=False, kind='bounded',
            bound='up to %d failed blocks and %d parity levels, every readability pattern of the parities and every sequence of validation verdicts' % (nf, lv),
-           defs={'REPAIR_LEVEL_MAX': lv, 'REPAIR_LEVEL_IS': lv, 'NFAIL': nf, 'NATT': 4},
+           defs={'REPAIR_LEVEL_MAX': lv, 'REPAIR_LEVEL_IS': lv, 'NFAIL': nf, 'NATT': 3},
            note='raid_data / raid_gen / is_hash_matching / is_parity_matching replaced by recording contracts (goto-instrument --dfcc)') for nf, lv in ((1, 1), (1, 2), (1, 3), (2, 2), (2, 3))]) + [
 Ob('check.repair_step.beyond_parity.f%d.l%d' % (fc, lv), K, 'h_repair_step_many', route='dfcc', replace=['raid_data', 'raid_gen', 'is_hash_matching', 'is_parity_matching'], unwind=16, small_path=True, object_bits=12, solver=KISSAT,
            timeout=1500, mem=8, cost=8, functions=cf('repair_step'), replay=False, defs={'VERIF_MANY': None, 'NFAIL': 3, 'NATT': 3, 'REPAIR_LEVEL_MAX': 6, 'MANY_FC': fc, 'MANY_LEVEL': lv},
@@ -474,7 +474,11 @@ STATE_M = dict(region='state_m', file='cmdline/state.c', scope="} else if (c == 
                end='map = map_alloc(disk->name, v_pos, v_total_blocks, v_free_blocks, uuid);', end_first_after=True, max_lines=40, expect_loops=0,
                proto='static void region_state_m(struct snapraid_state *state, char *buffer, char *uuid, STREAM *f, const char *path, struct snapraid_disk **disk_out)',
                prologue='\tstruct snapraid_disk *disk;', epilogue='\t*disk_out = disk;')
-ILK_REGIONS = [SCAN_EMPTY, SYNC_PSIZE, STATE_Z, STATE_Y, STATE_M]
+DIFF_VERDICT = dict(region='diff_verdict', file='cmdline/scan.c', begin='total.count_equal = 0;', include_begin=True, end='int state_diff(struct snapraid_state* state)', max_lines=100, expect_loops=1,
+                    brace_balance=-1,
+                    proto='static int region_diff_verdict(struct snapraid_state *state, tommy_list scanlist, int is_diff)',
+                    prologue='\ttommy_node *i;\n\tfptr *msg;\n\tstruct snapraid_scan total;\n\tint no_difference;\n\t{ /* the region text ends with the closing brace of state_diffscan */', epilogue='\treturn 0;')
+ILK_REGIONS = [SCAN_EMPTY, SYNC_PSIZE, STATE_Z, STATE_Y, STATE_M, DIFF_VERDICT]
 
 
 MAIN_CONFIG = dict(region='main_config', file='cmdline/snapraid.c', begin='state_init(&state);', include_begin=True, end='if (operation == OPERATION_DIFF) {', max_lines=40, expect_loops=0,
@@ -509,14 +513,20 @@ def filecopy_obs():
                functions=['file_copy (cmdline/elem.c)'], note='every source / destination hash, source state BLK or REP, every destination state and flag word') for hs in (16, 4)]
 
 
+MAIN_DIFF = dict(region='main_diff', file='cmdline/snapraid.c', begin='if (operation == OPERATION_DIFF) {', end='} else if (operation == OPERATION_SYNC) {', max_lines=14, expect_loops=0,
+                 proto='static void region_main_diff(struct snapraid_state *state_p)', prologue='\tstruct snapraid_state state = *state_p;\n\tint ret;', epilogue='\t*state_p = state;')
+
+
 def main_obs():
     M = 'harness/h_main.c'
-    return [Ob('main.config.region', M, 'h_main_config', inject=[MAIN_CONFIG, MAIN_SYNC], unwind=4, small_path=True, timeout=600, mem=6, cost=3,
+    return [Ob('main.config.region', M, 'h_main_config', inject=[MAIN_CONFIG, MAIN_SYNC, MAIN_DIFF], unwind=4, small_path=True, timeout=600, mem=6, cost=3,
                functions=['main: region "state_init(&state)" .. before the command dispatch (cmdline/snapraid.c, extracted mechanically)'],
                note='configured mode Cauchy / Vandermonde, lock file configured or not, --test-skip-lock, lock_lock succeeding / failing with any errno; every callee a recording stub'),
-            Ob('main.sync_branch.region', M, 'h_main_sync', inject=[MAIN_CONFIG, MAIN_SYNC], unwind=4, small_path=True, timeout=600, mem=6, cost=3,
+            Ob('main.sync_branch.region', M, 'h_main_sync', inject=[MAIN_CONFIG, MAIN_SYNC, MAIN_DIFF], unwind=4, small_path=True, timeout=600, mem=6, cost=3,
                functions=['main: the OPERATION_SYNC branch (cmdline/snapraid.c, extracted mechanically)'],
-               note='every outcome of scan / sync / test command, need_write set by scan or by sync, forced content write, kill-after-sync; every callee a recording stub')]
+               note='every outcome of scan / sync / test command, need_write set by scan or by sync, forced content write, kill-after-sync; every callee a recording stub'),
+            Ob('main.diff_branch.region', M, 'h_main_diff', inject=[MAIN_CONFIG, MAIN_SYNC, MAIN_DIFF], unwind=4, small_path=True, timeout=600, mem=6, cost=2,
+               functions=['main: the OPERATION_DIFF branch (cmdline/snapraid.c, extracted mechanically)'], note='every return value of state_diff')]
 
 
 def c14(tier, seed):
@@ -541,6 +551,18 @@ def c14(tier, seed):
            functions=['parity_allocated_size (cmdline/parity.c)', 'block_has_file (cmdline/elem.h)'], note='fs_size / fs_par2block_find by stub over a symbolic block table'),
     ]
     return obs + main_obs() + scanfile_obs()[:1]
+
+
+def c11(tier, seed):
+    I = 'harness/h_interlock.c'
+    P = 'harness/h_psize.c'
+    return scanfile_obs() + filecopy_obs() + [
+        Ob('scan.diff_verdict.region', I, 'h_diff_verdict', inject=ILK_REGIONS, unwind=6, small_path=True, timeout=900, mem=6, cost=5, kind='bounded', bound='1..3 data disks; every value (< 2^30) of the seven per-disk change counters',
+           functions=['state_diffscan: region "total.count_equal = 0" .. end of the function (cmdline/scan.c, extracted mechanically)'],
+           note='every counter vector per disk, parity_is_invalid true / false, diff and scan'),
+        Ob('parity.is_invalid', P, 'h_is_invalid', defs={'VERIF_ALLOW_BEYOND': None}, unwind=8, small_path=True, timeout=900, mem=6, cost=8, kind='bounded', bound='1..3 disks of at most 5 positions, every block state at every position',
+           functions=['parity_is_invalid (cmdline/parity.c)', 'parity_allocated_size (cmdline/parity.c)', 'block_has_file / block_has_invalid_parity (cmdline/elem.h)']),
+    ] + [o for o in main_obs() if o.name in ('main.diff_branch.region', 'main.sync_branch.region')]
 
 
 def c06(tier, seed):
@@ -630,6 +652,7 @@ PROPS = {
     'C18': dict(level='other', obligations=c18, explanation='', trusted_base=[], assumptions=[], not_covered=[]),
     'C20': dict(level='other', obligations=c20, explanation='', trusted_base=[], assumptions=[], not_covered=[]),
     'C14': dict(level='other', obligations=c14, explanation='', trusted_base=[], assumptions=[], not_covered=[]),
+    'C11': dict(level='other', obligations=c11, explanation='', trusted_base=[], assumptions=[], not_covered=[]),
     'C05': dict(level='other', obligations=c05, explanation='', trusted_base=[], assumptions=[], not_covered=[]),
     'C06': dict(level='other', obligations=c06, explanation='', trusted_base=[], assumptions=[], not_covered=[]),
     'C19': dict(level='other', obligations=c19, explanation='', trusted_base=[], assumptions=[], not_covered=[]),
@@ -802,6 +825,13 @@ PROPS['C14'].update(
     not_covered=['scan_dir / scan_disk', 'lock_lock / lock_unlock (cmdline/util.c)', 'that a refusal leaves every file byte-identical'])
 MANIFEST_TEXT['C14'] = dict(level_text='Narrow: the refuse / proceed decision of each interlock (empty disk, zero size, short parity, block size, hash size, missing disk, lock taken in main) is decided for all inputs on extracted regions / the extracted body of scan_file, plus the call order of the sync branch of main; that every file is byte-identical after a refusal is a file-system frame and is not decided - level other.',
                             design_ref='DESIGN.md section 4', level_note='regions by mechanical extraction; callees by stub; frame over the file system not decided', technique='CBMC drivers on mechanically extracted regions of real cmdline/scan.c, sync.c, state.c; bounded unit on real cmdline/parity.c')
+PROPS['C11'].update(
+    explanation='Only the per-entry and per-command DECISIONS of the statement, each on the real code: (1) scan_file (whole body extracted, callees by recording stub) classifies one directory entry against the recorded state: kept (same inode or path AND same size and time-stamp: equal / moved / restored) or a NEW file object - so every file whose size or time-stamp changed loses its block states and hashes and is read again by sync (file_copy makes inherited hashes provisional REP, also read again); exactly one change counter per entry; (2) the verdict of diff: a difference is reported iff some disk has an added / removed / updated / moved / copied / restored entry or parity_is_invalid (real: some stripe holds a file block and a block without valid parity, i.e. a previous sync was incomplete); main() turns it into exit status 2 and neither syncs nor writes; (3) the sync branch of main reads, scans, syncs and writes the content file iff something changed.',
+    trusted_base=['region extraction of state_diffscan, main and of the body of scan_file', 'the index structures and every callee of scan_file by stub'],
+    assumptions=['the directory walk (scan_dir: lstat / readdir / filters / links / empty dirs), scan_disk (removal detection = entries not marked present, count_remove), scan_link and scan_emptydir are NOT under an obligation', 'that list / check agree with the real tree afterwards is a whole-command statement over the file system and is not decided', 'scan orders and parallel scanning are not addressed (threads)'],
+    not_covered=['scan_dir, scan_disk, scan_link, scan_emptydir', 'state_diffscan insertion order / delayed allocation', 'list.c', 'histories of operations'])
+MANIFEST_TEXT['C11'] = dict(level_text='Narrow: how one directory entry is classified against the recorded state (and therefore re-read or trusted) and when diff reports a difference are per-call statements and are decided for all inputs; the directory walk, removal detection, links and the agreement of list / check with the real tree are not - level other.',
+                            design_ref='DESIGN.md section 4', level_note='callees and index structures by stub; scan_dir / scan_disk not covered', technique='CBMC drivers on the mechanically extracted body of scan_file and regions of state_diffscan / main; bounded unit on real cmdline/parity.c')
 PROPS['C19'] = dict(level='other', obligations=c19)
 PROPS['C19'].update(
     explanation='Every place where data or a hash is taken over without having been computed from the file at hand, each on the real code. (1) scan_file (whole body, callees by recording stub): a file keeps its object - blocks, hashes, parity positions - only when found by inode or by path with the same size and time-stamp; anything else becomes a NEW file object; hashes are inherited (file_copy) only with copy detection on, only from a file the stamp index returned for name (with a usable sub-second stamp) or path + size + time-stamp, and only if file_is_full_hashed_and_stable says so (real: blocks exist, all BLK/REP, none awaiting rehash). (2) file_copy (real): every inherited block becomes REP - provisional, parity not valid - never BLK. (3) sync hash region: a REP block whose data does not match stops the stripe with an error, is neither recorded nor repaired; BLK mismatch is a silent error; together with the completion region of C06 the data is hashed before the stripe is recorded. (4) pre-hash region (sync -h): any mismatch of a provisional hash sets skip_sync before parity is touched. (5) check / fix: state_import_fetch and search_file_compare / state_search_fetch (real) return data only after reading and hashing it in that call and comparing with the recorded hash of the block being replaced, whatever its state.',
